@@ -1503,6 +1503,16 @@ func (e *CEnv) evalCall(n *ast.CallExpr) (Value, types.Type) {
 				e.fail("fresh of %T", v)
 			}
 			return Scalar{BVUge(r, e.old.HeapTop)}, boolT
+		case "httplimit":
+			// httplimit(r): the byte limit of a reader made by http.MaxBytesReader (an uninterpreted
+			// function of the reader; only MaxBytesReader's assumed contract says anything about it)
+			v, _ := e.eval(n.Args[0])
+			iv, ok := v.(IfaceV)
+			if !ok {
+				e.fail("httplimit of %T", v)
+			}
+			B.DeclareFun("http.limit", []string{SRef}, SBV(64))
+			return Scalar{B.App("http.limit", SBV(64), iv.Ref)}, types.Typ[types.Int64]
 		case "allocated":
 			// allocated(p): the pointer / slice / map refers to an object that exists in this state
 			// (every reference stored in a well-typed heap does; stated explicitly where a quantified
@@ -1763,6 +1773,9 @@ func (e *CEnv) havocLvalue(cl *Clause, st *State) {
 			}
 			p.heapHavocked = true
 			p.newEpoch(st)
+			if n.Name == "everything" {
+				st.EpochG = st.Epoch
+			}
 			return
 		case strings.HasPrefix(n.Name, "ghost__"):
 			g := n.Name[7:]
@@ -1783,6 +1796,15 @@ func (e *CEnv) havocLvalue(cl *Clause, st *State) {
 				return
 			}
 		}
+		// a variable captured by a function literal: local cells are outside the heap frame (the
+		// literal is proved with arbitrary captured values and its effect on them is stated by ensures)
+		if e.fn != nil {
+			for _, fv := range e.fn.FreeVars {
+				if fv.Name() == n.Name {
+					return
+				}
+			}
+		}
 		e.fail("cannot modify %s", n.Name)
 	case *ast.StarExpr:
 		v, t := e.eval(n.X)
@@ -1797,7 +1819,52 @@ func (e *CEnv) havocLvalue(cl *Clause, st *State) {
 		pv.Null = False()
 		fr.store(nil, st, pv, nv, elem)
 		return
+	case *ast.BasicLit:
+		// "G:pkgname.Var": a package variable of a package this one does not import directly
+		if n.Kind == token.STRING {
+			key, _ := strconv.Unquote(n.Value)
+			if strings.HasPrefix(key, "G:") {
+				if dot := strings.Index(key, "."); dot > 2 {
+					pn, vn := key[2:dot], key[dot+1:]
+					for _, pp := range p.eng.pkgs {
+						if pp.Types == nil || pp.Types.Name() != pn {
+							continue
+						}
+						if v, ok := pp.Types.Scope().Lookup(vn).(*types.Var); ok {
+							for _, l := range leavesOf(v.Type()) {
+								st.Heap[key+l.Path] = B.Fresh("mod."+key+l.Path, l.Sort)
+							}
+							return
+						}
+					}
+				}
+				for k, old := range st.Heap {
+					if k == key || strings.HasPrefix(k, key+".") {
+						st.Heap[k] = B.Fresh("mod."+k, old.Sort)
+					}
+				}
+				for k, init := range p.initHeap {
+					if _, ok := st.Heap[k]; !ok && (k == key || strings.HasPrefix(k, key+".")) {
+						st.Heap[k] = B.Fresh("mod."+k, init.Sort)
+					}
+				}
+				return
+			}
+		}
+		e.fail("cannot modify %s", cl.Src)
 	case *ast.SelectorExpr:
+		// pkg.Var: a package variable of an imported package
+		if id, ok := n.X.(*ast.Ident); ok {
+			if pv, _ := e.tryPkg(id.Name); pv != nil {
+				if v, ok := pv.Scope().Lookup(n.Sel.Name).(*types.Var); ok {
+					key := "G:" + v.Pkg().Name() + "." + v.Name()
+					for _, l := range leavesOf(v.Type()) {
+						st.Heap[key+l.Path] = B.Fresh("mod."+key+l.Path, l.Sort)
+					}
+					return
+				}
+			}
+		}
 		// x.f.g...: find the innermost prefix that is a pointer, then follow value fields
 		var names []string
 		var cur ast.Expr = n
@@ -2000,4 +2067,26 @@ func (e *CEnv) lvalueTargets(cl *Clause) (keys []string, ref *Term, ok bool) {
 		}
 	}
 	return nil, nil, false
+}
+
+// tryPkg resolves an identifier to an imported package (by alias or name) without failing.
+func (e *CEnv) tryPkg(name string) (pk *types.Package, ok bool) {
+	defer func() {
+		if r := recover(); r != nil {
+			pk, ok = nil, false
+		}
+	}()
+	if e.locals != nil {
+		if _, _, found := e.locals(name, e.st); found {
+			return nil, false
+		}
+	}
+	if _, isVar := e.vars[name]; isVar {
+		return nil, false
+	}
+	v, _ := e.evalIdent(name)
+	if pv, isP := v.(pkgV); isP {
+		return pv.P, true
+	}
+	return nil, false
 }
